@@ -235,6 +235,9 @@ func BridgeSpec() Spec {
 		fix(CreateBatch(A, "C01-002", date(2022, 1, 1), date(2023, 1, 1), true, tx(3, "polygon", ""), Iss(B, "1", "0"))),
 		fix(CreateBatch(A, "C01-001", date(2022, 1, 1), date(2023, 1, 1), true, tx(5, "polygon", Contract2), Iss(B, "3", "0"))),
 		fix(CreateBatch(A2, "C02-001", date(2022, 1, 1), date(2023, 1, 1), true, tx(1, "polygon", Contract1), Iss(B, "3", "0"))), // other class: same tx+contract is fine
+		// the same contract in ANOTHER class: A becomes an issuer of C02, then receives for contract 1 there
+		fix(Msg("UpdateClassIssuers(A2,C02,+A)", &basetypes.MsgUpdateClassIssuers{Admin: A2.String(), ClassId: "C02", AddIssuers: []string{A.String()}})),
+		fix(BridgeReceive(A, "C02", "VCS-1", C, "1.25", date(2021, 1, 1), date(2022, 1, 1), tx(6, "polygon", Contract1))),
 		fix(Bridge(B, "polygon", Cr(B3, "1"))),
 		fix(Bridge(B, "polygon", Cr(B3, "0.5"), Cr(B3, Eps))),
 		fix(Bridge(C, "Polygon", Cr(B3, "1"))),
